@@ -976,6 +976,85 @@ def _single_field_components(model, rep):
                      f"rank 33)", init.lineno)
 
 
+def _wrapped_composite_components(model, rep):
+    """... and a composite reaches a constructor through wrappers as well:
+    ElementDG(P2 * P1) delivers two fields like P2 * P1, and so does
+    ElementDG(ElementDG(P2 * P1)).  The tests guarding the refusals in the
+    two constructors are interpreted on chains of one, two and three
+    ElementDG wrappers around a two-field composite (must refuse) and on a
+    plain element, wrapped or not (must not refuse)."""
+    from ..interp import ClassRef
+    L4 = "C19-L4"
+    comp = model.cls("skfem.element.element_composite", "ElementComposite")
+    dg = model.cls("skfem.element.element_dg", "ElementDG")
+    p1 = model.cls("skfem.element.element_tri.element_tri_p1",
+                   "ElementTriP1")
+
+    def chain(depth, inner):
+        for _ in range(depth):
+            inner = Obj(dg, {"elem": inner})
+        return inner
+
+    def two():
+        return Obj(comp, {"elems": (Obj(p1, {}), Obj(p1, {}))})
+    stubs = [("ElementDG(P2 * P1)", chain(1, two()), True),
+             ("ElementDG(ElementDG(P2 * P1))", chain(2, two()), True),
+             ("ElementDG(ElementDG(ElementDG(P2 * P1)))", chain(3, two()),
+              True),
+             ("ElementDG(ElementDG(P1))", chain(2, Obj(p1, {})), False),
+             ("P1", Obj(p1, {}), False)]
+    for modn, clsn in (("skfem.element.element_composite",
+                        "ElementComposite"),
+                       ("skfem.element.element_vector", "ElementVector")):
+        cls = model.cls(modn, clsn)
+        init = cls.methods["__init__"]
+        gb = cls.methods["gbasis"]
+        takes0 = any(isinstance(x, ast.Subscript) and isinstance(
+            x.value, ast.Call) and isinstance(x.value.func, ast.Attribute)
+            and x.value.func.attr == "gbasis" and src(x.slice) == "0"
+            for x in ast.walk(gb.node))
+        if not takes0:
+            rep.ok(L4, f"{clsn}.__init__:wrapped-composite-component",
+                   "gbasis forwards every field of a component")
+            continue
+        ifs = [x for x in ast.walk(init.node) if isinstance(x, ast.If)
+               and any(isinstance(y, ast.Raise) for y in x.body)]
+        for label, stub, want in stubs:
+            got, evaluated = False, 0
+            for x in ifs:
+                free = {n.id for n in ast.walk(x.test)
+                        if isinstance(n, ast.Name)} - {
+                    "self", "isinstance", "getattr", "ElementComposite",
+                    "None", "len", "any", "all"}
+                env = {k: stub for k in free}
+                env["self"] = Obj(cls, {})
+                env["ElementComposite"] = ClassRef(comp)
+                try:
+                    r = Interp(model).eval(x.test, env, init.module)
+                except (Unsupported, Raised):
+                    continue
+                evaluated += 1
+                got = got or r is True
+            if not evaluated:
+                raise AnalysisError(f"{clsn}.__init__: no refusal test "
+                                    f"could be interpreted on {label}")
+            cons = f"{clsn}.__init__:wrapped-composite-component[{label}]"
+            if got == want:
+                rep.ok(L4, cons, "refused" if want else "accepted")
+            elif want:
+                rep.fail(L4, cls.path, f"{clsn}.__init__", cons,
+                         f"{label} is accepted as a component: it delivers "
+                         f"two fields of which {clsn}.gbasis takes the "
+                         f"first, the DOFs of the other are numbered but "
+                         f"their basis functions are identically zero (mass "
+                         f"matrix of ElementDG(ElementDG(P2 * P1)) * P1: "
+                         f"rank 57 of 81)", init.lineno)
+            else:
+                rep.fail(L4, cls.path, f"{clsn}.__init__", cons,
+                         f"{label} is refused as a component although it "
+                         f"delivers a single field", init.lineno)
+
+
 def _composite_padding(model, rep):
     """CompositeBasis.basis: function j of component i is the tuple with
     that function in slot i and a *zero field of component k's kind* in
@@ -1156,6 +1235,7 @@ def run(model: Model, rep, tier: str) -> None:
            lambda: _add_functionals(model, rep),
            lambda: _l3(model, rep), lambda: _l4(model, rep),
            lambda: _single_field_components(model, rep),
+           lambda: _wrapped_composite_components(model, rep),
            lambda: _composite_padding(model, rep),
            lambda: _bmat_blocks(model, rep),
            lambda: _l5(model, rep), lambda: _l6(model, rep))
@@ -1177,6 +1257,18 @@ _LOCS = """            self.doflocs = np.array([
 _AS = "skfem/assembly/__init__.py"
 _ADI = "skfem/autodiff/__init__.py"
 MUTANTS = [
+    ("refusal of a wrapped composite looks one wrapper deep",
+     ("skfem/element/element_composite.py",
+      "        e = getattr(e, 'elem', None)\n        while e is not None:\n"
+      "            if isinstance(e, ElementComposite):\n                "
+      "return len(e.elems) > 1\n            e = getattr(e, 'elem', None)\n"
+      "        return False",
+      "        e = getattr(e, 'elem', None)\n        return isinstance(e, "
+      "ElementComposite) and len(e.elems) > 1"), "C19-L4"),
+    ("a wrapped composite is accepted as a component again",
+     ("skfem/element/element_composite.py",
+      "            if self._wraps_several_fields(e):",
+      "            if False and self._wraps_several_fields(e):"), "C19-L4"),
     ("composite basis index ranges ignore the shared numbering",
      ("skfem/assembly/basis/composite_basis.py",
       "            return [np.arange(basis.N, dtype=np.int32)\n"
